@@ -676,6 +676,16 @@ class Exec:
             return (cell, path + (pl[2],))
         if k == 'downcast':
             return s.resolve(st, fr, pl[1])
+        if k == 'index':      # slice[i] (the bounds check is a separate `assert` terminator in the MIR)
+            cell, path = s.resolve(st, fr, pl[1])
+            base = path if cell == 'val' else st.get(cell, path)
+            if isinstance(base, ArrRef):
+                base = with_prov(Slice(base.arr, bv(0), base.arr.len), base.prov)
+            if not isinstance(base, Slice) or base.stride is not None:
+                raise NotImplementedError('index projection on ' + type(base).__name__)
+            i = s.load(st, fr, ('local', pl[2]))
+            s.require(st, ULT(i, base.end - base.start), 'slice index out of bounds in an index projection', 'index')
+            return ('val', with_prov(ElemPtr(base.arr, base.start + i), base.prov))
         raise NotImplementedError('place kind ' + k)
 
     def place_prov(s, st, fr, pl):
@@ -825,13 +835,19 @@ class Exec:
             raise NotImplementedError('PtrMetadata of ' + str(type(v)))
         if t.startswith('&'):
             bk = re.match(r'^&(raw mut |raw const |mut )?', t).group(1)
-            pl = s.parse_place(re.sub(r'^&(raw mut |raw const |mut )?', '', t))
+            pl = s.parse_place(re.sub(r'^&(raw mut |raw const |mut )?(\(fake\) )?', '', t))
             base = s.place_prov(st, fr, pl)
             if bk == 'mut ':
                 s.require(st, z3.BoolVal(base != 'shared'), 'mutable reference created from a pointer that was derived through a shared borrow (writes through it are undefined behaviour)', '%s (&mut borrow)' % s.cur_fn.name.split('>::')[-1])
             prov = 'shared' if bk is None else ('mut' if bk == 'mut ' else base)
             cell, path = s.resolve(st, fr, pl)
             if cell == 'val':
+                if bk in (None, 'mut ') and isinstance(path, ElemPtr) and path.cast:
+                    ml = re.search(r'^\*(?:const|mut) GenericArray<\w+, (\w+)>$', path.cast)
+                    if ml:      # a REFERENCE to a whole GenericArray<T, L> must cover L elements of its source (validity invariant, also if it is discarded)
+                        need = s.consts.get(ml.group(1), s.N)
+                        s.require(st, z3.And(ADDOK(path.idx, need), ULE(path.idx + need, path.arr.len)),
+                                  'reference to a GenericArray created over fewer elements than its length (dangling reference: undefined behaviour even if the reference is discarded)', '%s (borrow)' % s.cur_fn.name.split('>::')[-1])
                 return with_prov(path, prov)
             try:
                 tgt = st.get(cell, path)
@@ -1664,6 +1680,21 @@ class Exec:
         if mwr and isinstance(args[0], Ref):      # overwrite without dropping the old value
             st.set(args[0].cell, args[0].path, args[1])
             return R(UNIT)
+        mt = re.match(r'^(?:core::)?bool::<impl bool>::(then_some|then)::<', c)
+        if mt:
+            cond = args[0]
+            outs = []
+            if s.feasible(st, cond):
+                s1 = st.clone(); s1.pc.append(cond)
+                if mt.group(1) == 'then_some':
+                    outs.append((s1, 'ret', Enum('Some', {0: args[1]})))
+                else:
+                    cc = s1.new_cell(args[1])
+                    outs += [(s2, k, Enum('Some', {0: v}) if k == 'ret' else None) for (s2, k, v) in s.call_closure2(s1, cc, [], where)]
+            if s.feasible(st, z3.Not(cond)):
+                s0 = st.clone(); s0.pc.append(z3.Not(cond))
+                outs.append((s0, 'ret', Enum('None', {})))      # then_some: its (already evaluated) argument is dropped here
+            return outs
         md = re.match(r'^(?:core::)?(?:mem::)?drop::<(.*)>$', c)
         if md:      # mem::drop(value): the type-directed drop glue of the value, here and now
             tmp = st.new_cell(args[0])
